@@ -256,6 +256,36 @@ def main(tier):
             # keys whose zone is not installed are skipped by `tzmap cc -e`: only wrong answers count
             if miss:
                 rep.disagree("shipped map %s answers a wrong zone" % nm, {"first": miss[:3], "count": len(miss)})
+        # keys at the length limit: what `tzmap check` accepts (up to 255 characters) must be in the compiled map
+        lens = [1, 2, 3, 4, 5, 8, 127, 128, 129, 200, 252, 253, 254, 255]
+        lkeys = ["A" * n_ for n_ in lens]
+        src = os.path.join(sdir, "len.tzmap")
+        out = os.path.join(sdir, "len.tzmcc")
+        with open(src, "w") as f:
+            for i, k in enumerate(lkeys):
+                f.write("%s\t%s\n" % (k, allz[i % len(allz)]))
+        pc = core.run([tzmap, "check", src], timeout=30)
+        p = core.run([tzmap, "cc", "-o", out, src], timeout=30)
+        if pc.returncode != 0 or p.returncode != 0 or not os.path.exists(out):
+            rep.disagree("tzmap check/cc refuse a source with keys of 1..255 characters", {"check_rc": pc.returncode, "cc_rc": p.returncode, "stderr": (pc.stderr + p.stderr)[:300]})
+        else:
+            with open(fm.path, "wb") as f:
+                f.write(open(out, "rb").read())
+            fm.n += 1
+            r_ = fm.drv.cmd("O " + fm.path)
+            ex = [{"e": "Reset", "keys": lkeys, "zones": [allz[i % len(allz)] for i in range(len(lkeys))]}]
+            if isinstance(r_, dict) and r_.get("ok"):
+                for q in lkeys + ["A" * 6, "A" * 126, "A" * 251, "A" * 256, "A" * 300, "B"]:
+                    a = fm.drv.cmd("F " + q)
+                    nfind += 1
+                    if a in ("hang", "crash"):
+                        fm.report(a, "find", "length keys, key of %d characters" % len(q))
+                        fm.drv.cmd("O " + fm.path)
+                        continue
+                    ex.append({"e": "Find", "key": q, "r": a.get("r") or ""})
+                execs.append(ex)
+            else:
+                rep.disagree("tzm_open fails on a compiled map", {"keys": "lengths %s" % lens, "answer": r_})
         fm.drv.close()
         rep.count(evaluations=fm.n + nfind, distinct=fm.n + nfind)
         rep.notes["map_cases"] = fm.n
